@@ -565,6 +565,8 @@ fn destructure_top_level_ands(lvalue: EvaluatedLvalue) -> Vec<EvaluatedLvalue> {
 }
 
 pub fn evaluate(env: &Rc<RefCell<Env>>, expr: &LocExpr) -> NRes<Obj> {
+    #[cfg(betaveros_noulith_verif)]
+    crate::verif_hooks::burn_fuel()?;
     match &expr.expr {
         Expr::Null => Ok(Obj::Null),
         Expr::IntLit64(n) => Ok(Obj::from(NInt::Small(*n))),
